@@ -257,22 +257,33 @@ func (w *World) checkCombine(r *core.Run, src, dst *AS, ups, cores, downs []*seg
 		exp := time.Time{}
 		for s := 0; s < q.NumINF; s++ {
 			var kind string
-			segIdx := -1
+			// the input segments all hop fields of this path segment seen so far can come from (a hop
+			// field alone may occur in several input segments: beacons of one origin that left over the
+			// same interface with the same timestamp and initial segment id share their first entries)
+			type segRef struct {
+				Kind string
+				Seg  int
+			}
+			var cands map[segRef]bool
 			for h := q.SegStart(s); h < q.SegStart(s)+q.SegLen[s]; h++ {
 				hf := q.Hops[h]
 				owners := idx[hopKey(hf.MAC, hf.ConsIngress, hf.ConsEgress, hf.ExpTime)]
 				var o *hopOwner
+				here := map[segRef]bool{}
 				for k := range owners {
-					if owners[k].TS == q.Infos[s].Timestamp && (kind == "" || (owners[k].Kind == kind && owners[k].Seg == segIdx)) {
-						o = &owners[k]
-						break
+					if owners[k].TS == q.Infos[s].Timestamp && (cands == nil || cands[segRef{owners[k].Kind, owners[k].Seg}]) {
+						here[segRef{owners[k].Kind, owners[k].Seg}] = true
+						if o == nil {
+							o = &owners[k]
+						}
 					}
 				}
 				if o == nil {
 					fail("foreign-field", "hop field %d (in %d eg %d) with segment timestamp %d is not taken from one input segment", h, hf.ConsIngress, hf.ConsEgress, q.Infos[s].Timestamp)
 					continue
 				}
-				kind, segIdx = o.Kind, o.Seg
+				cands = here
+				kind = o.Kind
 				e := q.HopExpiry(h)
 				if exp.IsZero() || e.Before(exp) {
 					exp = e
